@@ -12,6 +12,9 @@ ASSUMPTIONS = [
     "the core; the centre is the exact centroid of the (core) polygon from the C04 model; uniqueness of the boundary point on a ray from an interior "
     "point of a convex set is used",
     "tolerance 1e-9 * size; angles exactly at vertices/axes are included (the nearest binary64 angle)",
+    "model <-> code tie for the edge branch formulas (Model/DistanceBranches.v edge_distance, theorem C14_edge_branches_are_ray_parameter): the Coq definition is "
+    "extracted with R realised by binary64 (Extract/ExtractR.v: R, R0, R1, Rplus, Rmult, Ropp, Rinv, sin, cos, tan, sqrt, Rle_dec, Rlt_dec, Req_EM_T => float "
+    "operations; unsound as statements about reals, used for this comparison only) and compared with the implementation to 1e-9 on the edge the ray leaves through",
 ]
 TOL = 1e-9
 
